@@ -1,11 +1,179 @@
-/- Model-driver operations of cluster E (see Driver/Main.lean): generated (Gen) and hand-written (Model) code models. -/
-import PdbVerif.Driver.Json
+/- Model-driver operations of cluster E (C07, C11): the data-flow models of the four RMSD routines. -/
+import PdbVerif.Driver.ECommon
+import PdbVerif.Model.Parse
+import PdbVerif.Model.Contacts
+import PdbVerif.Model.RmsdFast
+import PdbVerif.Model.RmsdSql
 
 namespace Driver.ModelE
-open Lean Driver
+open Lean Driver Driver.ECommon Py Model Model.Rmsd
+
+/-- `pdb2sql(lines)`: the parser's model, rows as atoms -/
+def tableOf (lines : List Str) : Except Err (List Atom) := do
+  let rows ← Model.parse lines
+  rows.mapM (fun r => match Atom.ofRow r with
+    | some a => pure a
+    | none => throw (Err.unmodelled "row shape"))
+
+def mpairJ (p : Pair) : Json := pairJ p.1.2 p.2.2
+def mpairsJ (l : List Pair) : Json := .arr (l.map mpairJ).toArray
+
+/-- every pair joins two records of the same identity -/
+def byIdentity (l : List Pair) : Bool := l.all (fun p => decide (p.1.1 = p.2.1))
+
+def outcomeJ (o : Outcome) : Json :=
+  match o with
+  | .err e => Json.mkObj [("out", errJ e)]
+  | .value fit eval =>
+    Json.mkObj [("out", .str "value"), ("fit", mpairsJ fit), ("eval", mpairsJ eval),
+      ("by_identity", .bool (byIdentity fit && byIdentity eval))]
+
+def zoneSrc : ZoneArg → ZoneSrc
+  | .compute => .compute
+  | .write => .write
+  | .read l => .read l
+
+def linesJ (l : Except Err (List Str)) : Json := exceptJ (fun ls => Json.arr (ls.map strJ).toArray) l
+
+/-- the raw-column readers and the parser agree on identity and coordinates of every record -/
+def rawAgrees (lines : List Str) (t : Except Err (List Atom)) : Bool :=
+  match rawPts lines, t with
+  | .ok ps, .ok rows => decide (ps = rows.map ptOf)
+  | _, _ => false
+
+structure Run where
+  irmsdFast : Outcome
+  irmsdSql : Outcome
+  lrmsdFast : Outcome
+  lrmsdSql : Outcome
+
+def runAll (dl rl : List Str) (iz lz : ZoneArg) (cutoff : Rat) (check enforce : Bool) : Run :=
+  let td := tableOf dl
+  let tr := tableOf rl
+  { irmsdFast := Rmsd.irmsdFast dl rl td tr (zoneSrc iz) cutoff check enforce
+    irmsdSql := Rmsd.irmsdSql td tr (match iz with | .read l => some l | _ => none) cutoff
+    lrmsdFast := Rmsd.lrmsdFast dl rl td tr (zoneSrc lz) check enforce
+    lrmsdSql := Rmsd.lrmsdSql td tr enforce }
+
+/-! ### C11: relations between the model's outputs on a pair and on its transformed copy -/
+
+def outClass : Outcome → String
+  | .value _ _ => "value"
+  | .err e => "ERR:" ++ e.tag
+
+def mapPair (fd fr : P3 → P3) (fk : Key → Key) (p : Pair) : Pair := ((fk p.1.1, fd p.1.2), (fk p.2.1, fr p.2.2))
+
+/-- both runs return a value and the variant's pair lists are the images of the base's, in the same order -/
+def relMapped (f : Pair → Pair) (b v : Outcome) : Bool :=
+  match b, v with
+  | .value fb eb, .value fv ev => decide (fv = fb.map f) && decide (ev = eb.map f)
+  | .err e, .err e' => decide (e = e')
+  | _, _ => false
+
+/-- same identities in the same order (coordinates not compared) -/
+def relKeys (b v : Outcome) : Bool :=
+  let ks (l : List Pair) := l.map (fun p => (p.1.1, p.2.1))
+  match b, v with
+  | .value fb eb, .value fv ev => decide (ks fv = ks fb) && decide (ks ev = ks eb)
+  | .err e, .err e' => decide (e = e')
+  | _, _ => false
+
+/-- the variant returns the same pairs up to order, or raises -/
+def relPermOrError (b v : Outcome) : Bool :=
+  match b, v with
+  | .value fb eb, .value fv ev => fv.isPerm fb && ev.isPerm eb
+  | _, .err _ => true
+  | .err _, .value _ _ => false
+
+def clashArgs : ContactArgs :=
+  { cutoff := Gen.clash_cutoff, allchains := false, chain1 := "A".toList, chain2 := "B".toList, extend := false,
+    bb := false, noH := Gen.clash_excludeH, retPairs := Gen.clash_return_pairs }
+
+/-- `compute_clashes(pdb)` with the default chains: number of listed atom pairs -/
+def clashCount (t : Except Err (List Atom)) : Except Err Nat := do
+  let t ← t
+  let d ← contactPairs t clashArgs
+  pure (d.foldl (fun n e => n + e.2.length) 0)
+
+def fnatArgs (c0 c1 : Str) : ContactArgs :=
+  { cutoff := Gen.fnat_sql_cutoff_default, allchains := false, chain1 := c0, chain2 := c1, extend := false,
+    bb := Gen.fnat_ref_only_backbone, noH := Gen.fnat_ref_excludeH, retPairs := true }
+
+/-- the residue contact pairs both Fnat routines start from (`get_contact_residues(cutoff=5, excludeH=True,
+    return_contact_pairs=True)`), flattened -/
+def residuePairs (t : Except Err (List Atom)) : Except Err (List (ResKey × ResKey)) := do
+  let t ← t
+  match getChains t with
+  | [c0, c1] =>
+    let d ← contactResiduePairs t (fnatArgs c0 c1)
+    pure (d.flatMap (fun e => e.2.map (fun b => (e.1, b))))
+  | _ => throw Err.valueError
+
+def exceptEq {α : Type} [DecidableEq α] (a b : Except Err α) : Bool :=
+  match a, b with
+  | .ok x, .ok y => decide (x = y)
+  | .error e, .error e' => decide (e = e')
+  | _, _ => false
+
+def shiftRes (δ : Int) (k : ResKey) : ResKey := (k.1, k.2.1 + δ, k.2.2)
+
+def metaModel (kind : String) (j : Json) (bd br vd vr : List Str) (cutoff : Rat) (check enforce : Bool) : Except String Json := do
+  let rb := runAll bd br .compute .compute cutoff check enforce
+  let rv := runAll vd vr .compute .compute cutoff check enforce
+  let clB := clashCount (tableOf bd)
+  let clV := clashCount (tableOf vd)
+  let rpBd := residuePairs (tableOf bd); let rpBr := residuePairs (tableOf br)
+  let rpVd := residuePairs (tableOf vd); let rpVr := residuePairs (tableOf vr)
+  let mk (rel : Outcome → Outcome → Bool) (clash respairs : Option Bool) : Json :=
+    let one (nm : String) (b v : Outcome) : String × Json :=
+      (nm, Json.mkObj [("base", .str (outClass b)), ("var", .str (outClass v)), ("rel", .bool (rel b v))])
+    Json.mkObj [one "irmsd_fast" rb.irmsdFast rv.irmsdFast, one "irmsd_sql" rb.irmsdSql rv.irmsdSql,
+      one "lrmsd_fast" rb.lrmsdFast rv.lrmsdFast, one "lrmsd_sql" rb.lrmsdSql rv.lrmsdSql,
+      ("clashes_base", exceptJ (fun n => intJ n) clB), ("clashes_var", exceptJ (fun n => intJ n) clV),
+      ("clashes", match clash with | some x => .bool x | none => .null),
+      ("residue_pairs", match respairs with | some x => .bool x | none => .null)]
+  let sameContacts := exceptEq rpBd rpVd && exceptEq rpBr rpVr
+  match kind with
+  | "rigid_exact" =>
+    let g ← jMotion (← jVal j "motion")
+    let both := (← jStr j "which") == "both"
+    let f := mapPair (applyMotion g) (if both then applyMotion g else id) id
+    pure (mk (relMapped f) (some (exceptEq clB clV)) (some sameContacts))
+  | "rigid" => pure (mk relKeys none none)
+  | "columns" => pure (mk (relMapped id) (some (exceptEq clB clV)) (some sameContacts))
+  | "renumber" =>
+    let δ ← jInt j "delta"
+    let fk : Key → Key := fun k => (k.1, k.2.1 + δ, k.2.2)
+    let sh (x : Except Err (List (ResKey × ResKey))) := x.map (fun l => l.map (fun p => (shiftRes δ p.1, shiftRes δ p.2)))
+    pure (mk (relMapped (mapPair id id fk)) (some (exceptEq clB clV)) (some (exceptEq (sh rpBd) rpVd && exceptEq (sh rpBr) rpVr)))
+  | "hydrogens" => pure (mk (fun _ _ => true) (some (exceptEq clB clV)) (some sameContacts))
+  | "permute" => pure (mk relPermOrError none none)
+  | _ => throw s!"unknown meta kind {kind}"
 
 def op (name : String) (j : Json) : Except String (Option Json) := do
   match name with
+  | "rmsd" =>
+    let dl ← jLines j "dec"
+    let rl ← jLines j "ref"
+    let cutoff ← jRat j "cutoff"
+    let check ← jBool j "check"
+    let enforce ← jBool j "enforce"
+    let iz ← jZone j "izone"
+    let lz ← jZone j "lzone"
+    let r := runAll dl rl iz lz cutoff check enforce
+    let td := tableOf dl
+    let tr := tableOf rl
+    pure (some (Json.mkObj [
+      ("irmsd_fast", outcomeJ r.irmsdFast), ("irmsd_sql", outcomeJ r.irmsdSql),
+      ("lrmsd_fast", outcomeJ r.lrmsdFast), ("lrmsd_sql", outcomeJ r.lrmsdSql),
+      ("izone_text", linesJ (izoneFileText tr cutoff)), ("lzone_text", linesJ (lzoneFileText tr)),
+      ("raw_agrees", .bool (rawAgrees dl td && rawAgrees rl tr))]))
+  | "meta" =>
+    let b ← jVal j "base"
+    let v ← jVal j "var"
+    let r ← metaModel (← jStr j "kind") j (← jLines b "dec") (← jLines b "ref") (← jLines v "dec") (← jLines v "ref")
+      (← jRat j "cutoff") (← jBool j "check") (← jBool j "enforce")
+    pure (some r)
   | _ => pure none
 
 end Driver.ModelE
